@@ -104,3 +104,14 @@ Example C04_subcommand_variable_hypothesis_satisfiable :
   exists sc v, v <> None /\ wf_scall (with_envsub sc v) = true /\
     (match v with Some w => name_eqb w (s_name sc) | None => false end && env_is_source (s_parent sc))%bool = false.
 Proof. exact envsub_inert_satisfiable. Qed.
+
+(* residual of class 6 on /repo 3663e43 (model variant fx_envsub): the copy by top-level entry replaces a whole group; the witness is
+   inside the residual class, the repaired pipeline misses the fold on it, and the leaf-wise copy (fx_leaf) meets it *)
+Theorem C04_subcommand_variable_replaces_group_refuted :
+  wf_scall group_scall = true /\ scall_class_fx false true true false group_scall = 6%N /\
+  scall_class_fx false true true true group_scall = 2%N /\
+  final_values_sub group_scall = [VTok 1; VTok 3; VTok 8] /\
+  sub_outcome_fx fx_repo group_scall = Some [VTok 1; VTok 3; VTok 2] /\
+  sub_outcome_fx fx_repo_leaf group_scall = Some (final_values_sub group_scall).
+Proof. exact envsub_group_residual. Qed.
+Print Assumptions C04_subcommand_variable_replaces_group_refuted.
